@@ -284,6 +284,163 @@ def case_evaluate_wrapper(pp):
     return run
 
 
+def case_function_node(pp, flavour, kinds):
+    """An operator-function node f(c_1, .., c_k) evaluated by the real parser through the real AbstractFunction.__call__ / func
+    (and the real DiagonalJacobianFunction.get_jacobian / Function.func) with children of the given value kinds.
+    Contract of AbstractFunction.func (from its documentation and the statement: the node denotes the function applied to the
+    denotations of the children, with derivative as soon as ANY child carries one)."""
+
+    StubLeaf = _stub_leaf_class(pp)
+
+    def run(ctx):
+        n, m = ctx.int("n"), ctx.int("m")
+        ctx.assume(n >= 1)
+        ctx.assume(m >= 1)
+        i, j = ctx.int("i"), ctx.int("j")
+        ctx.assume((i >= 0) & (i < n))
+        ctx.assume((j >= 0) & (j < m))
+        vals = [_mk_value(ctx, pp, k, f"C{q}", n, m) for q, k in enumerate(kinds)]
+        leaves = [StubLeaf(v[0], f"C{q}") for q, v in enumerate(vals)]
+        has_ad = "A" in kinds
+        from porepy.numerics.ad._ad_parser import AdParser
+
+        parser = AdParser(None)
+        seen = {}
+        if flavour == "abstract":
+            VAL = SymArray.fresh("VAL", n, "real")
+            JAC = SymMat.fresh("JAC", n, m)
+
+            class G(pp.ad.AbstractFunction):
+                def get_values(self, *args):
+                    seen["values"] = args
+                    return VAL
+
+                def get_jacobian(self, *args):
+                    seen["jac"] = args
+                    return JAC
+
+            node = G(name="g")(*leaves)
+            res = parser._evaluate_single(node, None, _StubES())
+            ctx.prove("get_values receives the children's values in call order", len(seen.get("values", ())) == len(vals)
+                      and all(a is v[0] for a, v in zip(seen["values"], vals)))
+            if has_ad:
+                ctx.prove("a node with an AdArray child (in ANY position) evaluates to an AdArray", isinstance(res, pp.ad.AdArray))
+                if isinstance(res, pp.ad.AdArray):
+                    ctx.prove("its value is get_values(*children)", SymBool(rterm(res.val.at(i)) == VAL.elem(i)))
+                    ctx.prove("its Jacobian is get_jacobian(*children)", SymBool(res.jac.entry(i, j) == JAC.entry(i, j)))
+                    ctx.prove("get_jacobian receives the children's values in call order", len(seen.get("jac", ())) == len(vals)
+                              and all(a is v[0] for a, v in zip(seen["jac"], vals)))
+            else:
+                ctx.prove("a node without AdArray children evaluates to the plain value", isinstance(res, SymArray))
+                if isinstance(res, SymArray):
+                    ctx.prove("which is get_values(*children)", SymBool(rterm(res.at(i)) == VAL.elem(i)))
+            return "ok"
+        if flavour == "diagonal":
+            mult = [2.0, -0.5, 3.0][: len(kinds)]
+            VAL = SymArray.fresh("VAL", n, "real")
+
+            class D(pp.ad.DiagonalJacobianFunction):
+                def get_values(self, *args):
+                    return VAL
+
+            node = D(mult, "d")(*leaves)
+            res = parser._evaluate_single(node, None, _StubES())
+            if has_ad:
+                ctx.prove("a node with an AdArray child (in ANY position) evaluates to an AdArray", isinstance(res, pp.ad.AdArray))
+                if isinstance(res, pp.ad.AdArray):
+                    want = z3.RealVal(0)
+                    for mu, (v, e, jf) in zip(mult, vals):
+                        if jf is not None:
+                            want = want + z3.RealVal(repr(mu)) * jf(i.t, j.t)
+                    ctx.prove("value is get_values(*children)", SymBool(rterm(res.val.at(i)) == VAL.elem(i)))
+                    ctx.prove("Jacobian is the sum of multiplier_k * Jacobian of child k over the AdArray children", SymBool(res.jac.entry(i, j) == want))
+            else:
+                ctx.prove("a node without AdArray children evaluates to the plain value", isinstance(res, SymArray))
+            return "ok"
+        # flavour == "function": pp.ad.Function wrapping a python callable on forward-mode arrays
+        f = (lambda a, b: a * b + a) if len(kinds) == 2 else (lambda a: a * a)
+        node = pp.ad.Function(f, "f")(*leaves)
+        res = parser._evaluate_single(node, None, _StubES())
+        direct = f(*[v[0] for v in vals])
+        if has_ad:
+            ctx.prove("a node with an AdArray child (in ANY position) evaluates to an AdArray", isinstance(res, pp.ad.AdArray))
+            if isinstance(res, pp.ad.AdArray):
+                ctx.prove("value equals the wrapped function on the children's values", SymBool(rterm(res.val.at(i)) == rterm(direct.val.at(i))))
+                ctx.prove("Jacobian equals the wrapped function's Jacobian", SymBool(res.jac.entry(i, j) == direct.jac.entry(i, j)))
+        else:
+            got = rterm(res.at(i)) if isinstance(res, SymArray) else rterm(res)
+            want = rterm(direct.at(i)) if isinstance(direct, SymArray) else rterm(direct)
+            ctx.prove("plain children: value equals the wrapped function", SymBool(got == want))
+        return "ok"
+
+    return run
+
+
+def case_shift_recursion(pp, which):
+    """Operator.previous_timestep / previous_iteration (real _get_previous_time_or_iterate recursion) on composite trees with a
+    SYMBOLIC number of steps: every variable leaf of the copy is shifted by exactly `steps`, every other leaf is the same
+    object, the shape and operations of the tree are unchanged, the original tree is untouched."""
+
+    def leaves(op, acc):
+        if not op.children:
+            acc.append(op)
+        for c in op.children:
+            leaves(c, acc)
+        return acc
+
+    def shape(op):
+        return (type(op).__name__, getattr(op.operation, "name", None), tuple(shape(c) for c in op.children))
+
+    # the trees are built here, outside the shadowed-builtins region (DenseArray.__init__ passes `float` to numpy)
+    g1 = pp.CartGrid([2, 1])
+    g1.compute_geometry()
+    mdg = pp.MixedDimensionalGrid()
+    mdg.add_subdomains(g1)
+    es = pp.ad.EquationSystem(mdg)
+    u = es.create_variables("u", subdomains=[g1])
+    w = es.create_variables("w", subdomains=[g1])
+    c = pp.ad.Scalar(2.0)
+    d = pp.ad.DenseArray(np.array([1.0, 2.0]))
+    trees = {
+        "u*w": u * w,
+        "2*(u+d)/w": c * (u + d) / w,
+        "exp(u*w)-u.sub_vars[0]": pp.ad.Function(pp.ad.functions.exp, "exp")(u * w) - u.sub_vars[0],
+        "(d*u)**2": (d * u) ** c,
+    }
+
+    def run(ctx):
+        S = ctx.int("steps")
+        ctx.assume(S >= 1)
+        for name, tree in trees.items():
+            before = [(l, getattr(l, "_time_step_index", None), getattr(l, "_iterate_index", None)) for l in leaves(tree, [])]
+            new = tree.previous_timestep(steps=S) if which == "time" else tree.previous_iteration(steps=S)
+            ctx.prove(f"{name}: the shifted tree has the same shape and operations", shape(new) == shape(tree))
+            ok_frame = all(getattr(l, "_time_step_index", None) is a and getattr(l, "_iterate_index", None) is b for l, a, b in before)
+            ctx.prove(f"{name}: the original tree is untouched", ok_frame)
+            for lo, ln in zip(leaves(tree, []), leaves(new, [])):
+                if isinstance(lo, pp.ad.Variable):
+                    subs = [(lo, ln)] + (list(zip(lo.sub_vars, ln.sub_vars)) if isinstance(lo, pp.ad.MixedDimensionalVariable) else [])
+                    for a, b in subs:
+                        if which == "time":
+                            ctx.prove(f"{name}: variable leaf {a.name} is `steps` time steps back (index steps - 1, as the leaf's own previous_timestep(steps))",
+                                      SymBool(z3.And(sym.iterm(b.time_step_index) == S.t - 1, sym.iterm(b.time_step_index) == sym.iterm(a.previous_timestep(steps=S).time_step_index))))
+                        else:
+                            # public convention: the current iterate and the most recent stored one both have index 0, `steps` back is steps - 1
+                            ctx.prove(f"{name}: variable leaf {a.name} is `steps` iterates back (index steps - 1, as the leaf's own previous_iteration(steps))",
+                                      SymBool(z3.And(sym.iterm(b.iterate_index) == S.t - 1, sym.iterm(b.iterate_index) == sym.iterm(a.previous_iteration(steps=S).iterate_index))))
+                            ctx.prove(f"{name}: variable leaf {a.name} stays at the current time", b.time_step_index == a.time_step_index)
+                else:
+                    ctx.prove(f"{name}: constant leaf is kept", ln is lo)
+        if which == "iterate":
+            ctx.assume(S >= 2)
+            b = (u * w).previous_iteration(steps=S)
+            ctx.prove("CANARY: a shift by `steps` iterates moves the variable by one iterate",
+                      SymBool(sym.iterm(leaves(b, [])[0].iterate_index) == sym.iterm(u.iterate_index) + 1), expect_refuted=True)
+        return "ok"
+
+    return run
+
+
 # ----------------------------------------------------------------------------- sweep
 
 
@@ -299,7 +456,9 @@ def _build_system(pp, rng, which):
         mdg.compute_geometry()
     es = pp.ad.EquationSystem(mdg)
     sds = mdg.subdomains()
-    u = es.create_variables("u", subdomains=sds)
+    # on the fractured grids the md-variable lists its subdomains in REVERSE order, so that the order of its sub-variables differs
+    # from the global dof order
+    u = es.create_variables("u", subdomains=sds if which == 0 else sds[::-1])
     w = es.create_variables("w", dof_info={"cells": 2}, subdomains=sds[:1])
     lam = es.create_variables("lam", interfaces=mdg.interfaces()) if mdg.interfaces() else None
     N = es.num_dofs()
@@ -310,13 +469,20 @@ def _build_system(pp, rng, which):
     return mdg, es, u, w, lam
 
 
+def _stored(es, var, time_step_index=None, iterate_index=None):
+    """Den of a shifted variable: the stored global vector of that time step / iterate at the dofs of the variable, in the SAME
+    order as the current variable (base[dofs_of([var])]) -- not whatever order get_variable_values([var]) happens to return."""
+    full = es.get_variable_values(time_step_index=time_step_index) if time_step_index is not None else es.get_variable_values(iterate_index=iterate_index)
+    return full[es.dofs_of([var])]
+
+
 def _direct(pp, es, leaf_kind, payload, base):
     """Den(leaf) on forward-mode arrays built from the current state"""
     if leaf_kind == "var":
         return base[es.dofs_of([payload])]
     if leaf_kind in ("prev_t", "prev_i"):
         var, k = payload
-        vals = es.get_variable_values([var], time_step_index=k) if leaf_kind == "prev_t" else es.get_variable_values([var], iterate_index=k)
+        vals = _stored(es, var, time_step_index=k) if leaf_kind == "prev_t" else _stored(es, var, iterate_index=k)
         return vals
     return payload
 
@@ -421,13 +587,17 @@ def _sweep(rep, pp):
                 cur = base[es.dofs_of([var])]
                 for steps in (1, 2):
                     pt, pi = var.previous_timestep(steps), var.previous_iteration(steps)
-                    et = es.get_variable_values([var], time_step_index=pt.time_step_index)
-                    ei = es.get_variable_values([var], iterate_index=pi.iterate_index)
+                    et = _stored(es, var, time_step_index=pt.time_step_index)
+                    ei = _stored(es, var, iterate_index=pi.iterate_index)
                     check(f"{vname}.prev_t{steps}", pt, et)
                     check(f"{vname}.prev_i{steps}", pi, ei)
                     check(f"{vname}*{vname}.prev_t{steps}", var * pt, cur * et)
                     check(f"{vname}.prev_i{steps}-{vname}", pi - var, (-cur) + ei)
                 check(f"({vname}*{vname}).prev_t1", (var * var).previous_timestep(), et_sq(es, var))
+                e2t = _stored(es, var, time_step_index=var.previous_timestep(2).time_step_index)
+                e2i = _stored(es, var, iterate_index=var.previous_iteration(2).iterate_index)
+                check(f"({vname}*{vname}).prev_t2", (var * var).previous_timestep(steps=2), e2t * e2t)
+                check(f"({vname}*{vname}+{vname}).prev_i2", (var * var + var).previous_iteration(steps=2), e2i * e2i + e2i)
             # ---- (b) random trees
             ntrees = (25 if quick else 250)
             sds = mdg.subdomains()
@@ -445,11 +615,11 @@ def _sweep(rep, pp):
                 if k == "prev_t":
                     steps = rng.choice([1, 2])
                     pt = u.previous_timestep(steps)
-                    return pt, es.get_variable_values([u], time_step_index=pt.time_step_index), f"u.prev_t{steps}"
+                    return pt, _stored(es, u, time_step_index=pt.time_step_index), f"u.prev_t{steps}"
                 if k == "prev_i":
                     steps = rng.choice([1, 2])
                     pi = u.previous_iteration(steps)
-                    return pi, es.get_variable_values([u], iterate_index=pi.iterate_index), f"u.prev_i{steps}"
+                    return pi, _stored(es, u, iterate_index=pi.iterate_index), f"u.prev_i{steps}"
                 if k == "scalar":
                     c = rng.choice([0.5, 2.0, 3.0])
                     return pp.ad.Scalar(c), c, f"S({c})"
@@ -549,7 +719,7 @@ def _sweep(rep, pp):
 
 
 def et_sq(es, var):
-    v = es.get_variable_values([var], time_step_index=0)
+    v = _stored(es, var, time_step_index=0)
     return v * v
 
 
@@ -647,6 +817,7 @@ def run(rep):
         refuted.append(("Operator: numpy defers ndarray o Operator to the reflected overloads (__array_ufunc__ is None)", None, {"model": "class attribute missing"}))
     mods = [_ad_parser, forward_mode, functions, operators]
     pairs = [("A", "A"), ("A", "F"), ("F", "A"), ("A", "N"), ("N", "A"), ("N", "N"), ("F", "N"), ("N", "F")]
+    shift_cases = {which: case_shift_recursion(pp, which) for which in ("time", "iterate")}
     with shims.shadow_builtins(mods), shims.numpy_shims():
         for opname in sorted(produced):
             if opname in ("matmul", "rmatmul"):
@@ -666,6 +837,17 @@ def run(rep):
             refuted += rf
         rf, _ = run_case(rep, "AdParser.evaluate (wrapping of constants, cache)", case_evaluate_wrapper(pp))
         refuted += rf
+        from porepy.numerics.ad import operator_functions
+
+        with shims.shadow_builtins([operator_functions]):
+            for flavour in ("abstract", "diagonal", "function"):
+                for kinds in (("A",), ("N",), ("A", "A"), ("A", "N"), ("N", "A"), ("A", "F"), ("F", "A"), ("N", "N"), ("N", "F")):
+                    rf, _ = run_case(rep, f"_evaluate_single[evaluate: {flavour} function]({','.join(kinds)})", case_function_node(pp, flavour, kinds),
+                                     allowed_exceptions=(ValueError,))
+                    refuted += rf
+        for which in ("time", "iterate"):
+            rf, _ = run_case(rep, f"Operator.previous_{'timestep' if which == 'time' else 'iteration'}(steps) on composite trees", shift_cases[which])
+            refuted += rf
     rep.trust(*sorted(shims.USED_MODELS))
     for name, ctx, r in refuted:
         rep.violation(name, name.split(":")[0], inputs=None, detail=f"z3 counter-model: {r['model']}"[:1500], confirmed=False, solver_output=str(r["model"]))
